@@ -71,6 +71,10 @@ class DataFrame(Entity, DataSet):
         # recreate through create_dataset so that rows can still be appended
         self._h5group.create_dataset("data", farr.shape, dt)
         self.write_direct(farr)
+        units = self._h5group.get_attr("units")
+        if units is not None:
+            # one unit per column: the new column has none yet
+            self.units = list(units) + [None]
 
     def append_rows(self, data):
         """
